@@ -13,7 +13,11 @@ CONSTANTS
   Chan,         \* 1..N
   ChanF,        \* [Chan -> Int]  channel frequency (GHz)
   Kind,         \* [element id -> "fiber" | "roadm" | "amp"]
-  Span,         \* [fibre id -> [attIn, conIn, conOut, lumps (sequence of [km, loss]), lenKm, alpha (table <<[f, a]>>, mdB/km)]]
+  Span,         \* [fibre id -> [attIn, conIn, conOut, lumps (sequence of [km, loss]), lenKm, alpha (table <<[f, a]>>, mdB/km),
+                \*               disp (single-value dispersion without slope, 1e-3 ps/nm/km; NONE: per-frequency table, the
+                \*               span's CD is then an abstract per-channel contribution), dispTab (that table, <<[f, a]>>),
+                \*               ref ([kind |-> "default" | "wavelength" (v in nm) | "frequency" (v in GHz), v]: the reference
+                \*               at which the fibre parameters are given - 1550 nm when the configuration writes none)]]
   DCd,          \* [element id -> [Chan -> Int]]  own contributions (abstract integers in the bounded model; in the
   DLat,         \*                                 replay they are MEASURED by crossing the element alone)
   DPmd,         \* own PMD^2
@@ -27,10 +31,23 @@ N == Cardinality(Chan)
 IsFiber(e) == Kind[e] = "fiber"
 RECURSIVE SumLumps(_)
 SumLumps(s) == IF s = <<>> THEN 0 ELSE Head(s).loss + SumLumps(Tail(s))
+\* the budget of a span record s for channel c: every lumped loss of the configuration counts once
+AlphaLOf(s, c)  == Interp(s.alpha, ChanF[c]) * s.lenKm * 1000
+BudgetOf(s, c)  == FiberLoss([attIn |-> s.attIn, conIn |-> s.conIn, conOut |-> s.conOut, lumped |-> SumLumps(s.lumps)],
+                             AlphaLOf(s, c))
 \* the budget of fibre e for channel c
-AlphaL(e, c)    == Interp(Span[e].alpha, ChanF[c]) * Span[e].lenKm * 1000
-Budget(e, c)    == FiberLoss([attIn |-> Span[e].attIn, conIn |-> Span[e].conIn, conOut |-> Span[e].conOut,
-                              lumped |-> SumLumps(Span[e].lumps)], AlphaL(e, c))
+AlphaL(e, c)    == AlphaLOf(Span[e], c)
+Budget(e, c)    == BudgetOf(Span[e], c)
+\* A lumped loss sits strictly inside the span (the element documents "boundaries excluded").  A configuration with a
+\* lumped loss at 0 km or at the span end is not one of the fibres the property quantifies over: the constructor may refuse
+\* it.  If it ACCEPTS it, what it returns is a fibre with that lumped loss, and every clause applies to it (the loss
+\* counts once in the budget, with Raman computation off and on).
+LumpInside(l, lenKm) == 0 < l.km /\ l.km < lenKm
+SpanValid(s)    == \A k \in 1..Len(s.lumps) : LumpInside(s.lumps[k], s.lenKm)
+\* the CD a span adds to channel c.  Single-value dispersion D without slope: D x length for EVERY channel, whatever the
+\* reference wavelength / frequency the fibre parameters are given at (s.ref does not appear); per-frequency table: abstract
+SpanCd(s)       == s.disp * s.lenKm
+OwnCd(e, c)     == IF Span[e].disp = NONE THEN DCd[e][c] ELSE SpanCd(Span[e])
 
 Zero == [loss |-> [c \in Chan |-> 0], cd |-> [c \in Chan |-> 0], lat |-> 0, pmd |-> 0, pdl |-> 0]
 
@@ -43,7 +60,7 @@ Crossed == SeqRange(done)
 \* crossing one element (Fiber.propagate / Roadm.propagate / Edfa.propagate as far as C05 is concerned)
 Apply(e, a) == IF IsFiber(e)
                THEN [loss |-> [c \in Chan |-> a.loss[c] + Budget(e, c)],
-                     cd   |-> [c \in Chan |-> a.cd[c] + DCd[e][c]],
+                     cd   |-> [c \in Chan |-> a.cd[c] + OwnCd(e, c)],
                      lat  |-> a.lat + DLat[e],
                      pmd  |-> a.pmd + DPmd[e],
                      pdl  |-> a.pdl]
@@ -62,7 +79,7 @@ Spec == Init /\ [][Next]_vars
 FibersIn(S)  == {e \in S : IsFiber(e)}
 OthersIn(S)  == {e \in S : ~IsFiber(e)}
 BudgetSum(S, c) == SumFun([e \in FibersIn(S) |-> Budget(e, c)], FibersIn(S))
-CdSum(S, c)     == SumFun([e \in FibersIn(S) |-> DCd[e][c]], FibersIn(S))
+CdSum(S, c)     == SumFun([e \in FibersIn(S) |-> OwnCd(e, c)], FibersIn(S))
 LatSum(S)       == SumFun([e \in FibersIn(S) |-> DLat[e]], FibersIn(S))
 PmdSum(S)       == SumFun([e \in S |-> DPmd[e]], S)
 PdlSum(S)       == SumFun([e \in OthersIn(S) |-> DPdl[e]], OthersIn(S))
@@ -72,6 +89,10 @@ LossIsBudget  == \A c \in Chan : acc.loss[c] = BudgetSum(Crossed, c)
 \* CD and latency add linearly over the spans
 CdLinear      == \A c \in Chan : acc.cd[c] = CdSum(Crossed, c)
 LatencyLinear == acc.lat = LatSum(Crossed)
+\* ... and the CD of a path whose spans all have a single-value dispersion is sum(dispersion x length) on every channel
+ScalarDisp(S) == \A e \in FibersIn(S) : Span[e].disp # NONE
+CdFromConfig  == ScalarDisp(Crossed) =>
+                    \A c \in Chan : acc.cd[c] = SumFun([e \in FibersIn(Crossed) |-> SpanCd(Span[e])], FibersIn(Crossed))
 \* PMD / PDL add in quadrature over fibres, ROADMs and amplifiers
 PmdQuadrature == acc.pmd = PmdSum(Crossed)
 PdlQuadrature == acc.pdl = PdlSum(Crossed)
